@@ -14,10 +14,19 @@ pub struct Entry {
     pub caps: Caps,
     pub batch: fn(&BatchCfg) -> BatchOut,
     pub replay: fn(&J) -> Result<ExecOut, String>,
+    pub allocs_batch: fn(&BatchCfg) -> BatchOut,
+    pub allocs_replay: fn(&J) -> Result<crate::scen::SOut, String>,
+}
+
+fn allocs_batch<T: Sut>(bc: &BatchCfg) -> BatchOut {
+    crate::scen::run_scenario(&crate::allocs::AllocScen::<T>(std::marker::PhantomData), bc)
+}
+fn allocs_replay<T: Sut>(j: &J) -> Result<crate::scen::SOut, String> {
+    crate::scen::replay_scenario(&crate::allocs::AllocScen::<T>(std::marker::PhantomData), j)
 }
 
 fn entry<T: Sut>() -> Entry {
-    Entry { name: T::name(), caps: T::caps(), batch: runner::run_batch::<T>, replay: runner::replay::<T> }
+    Entry { name: T::name(), caps: T::caps(), batch: runner::run_batch::<T>, replay: runner::replay::<T>, allocs_batch: allocs_batch::<T>, allocs_replay: allocs_replay::<T> }
 }
 
 type IL = IndexList<Vec<u32>, Vec<u64>>;
@@ -76,6 +85,9 @@ pub fn entries() -> &'static Vec<Entry> {
             entry::<RegionSut<ColsCollapsePairsStr>>(),
             entry::<RegionSut<ColsSliceU8>>(),
             entry::<RegionSut<SliceColsU8>>(),
+            entry::<RegionSut<TupCollapse>>(),
+            entry::<RegionSut<ColsCollapseStr>>(),
+            entry::<RegionSut<SliceCollapseStr>>(),
             entry::<RegionSut<HuffU8>>(),
             entry::<RegionSut<HuffU16>>(),
             entry::<RegionSut<Codec>>(),
@@ -120,6 +132,7 @@ pub fn applies(prop: u8, e: &Entry) -> bool {
         14 => c.copy && !c.is_stack,
         16 => c.serde,
         18 => c.heap,
+        17 => c.presize || (c.plain && c.heap),
         20 => c.nforms > 1,
         _ => false,
     }
